@@ -448,7 +448,7 @@ def run(ctx):
         cases.append(sellib.gen_case(random.Random(rng.getrandbits(64))))
     if ctx.tier == 'thorough':
         ex = exhaustive_cases(3, rng)
-        ctx.extra['exhaustive_small_scope'] = {'task_sets': len(SMALL_SETS), 'alphabet': 9, 'max_argv_len': 3,
+        ctx.extra['exhaustive_small_scope'] = {'task_sets': len(SMALL_SETS), 'alphabet': 9, 'max_argv_len': 3, 'reporters': ['recording', 'json', 'zero'],
                                                'cases': len(ex)}
     else:
         ex = exhaustive_cases(2, rng) + exhaustive_cases(3, rng, sample=500 * ctx.boost)
